@@ -5,7 +5,7 @@ from ..cfg import CFG
 from ..guards import TOP, GuardAnalysis, show_state
 from ..report import borrow, AnalysisError, norm
 from ..srcmodel import own_nodes
-from ..terms import Resolver, alternatives, fields_in, show, walk
+from ..terms import canon, Resolver, alternatives, fields_in, show, walk
 
 PROP = "C08"
 EXHAUSTIVE = True
@@ -50,6 +50,7 @@ def run(rep, ctx):
         borrow(rep, c07.r6_eq_hash, ctx, "C07.R6", "C08.R7", keep=lambda o: o.key.startswith("Quantity:"))
     except AnalysisError as e:
         rep.error("C08.R7", str(e))
+    rep.run_rule("C08.R8", "__eq__ compares the same projection of both operands in every comparison it makes (symmetric by construction)", r8_symmetric_shape, ctx)
     rep.not_decided += [
         "reflexivity and symmetry of == beyond the guard forms (exact-type or isinstance guards with Python's subclass-first dispatch)",
         "that the numeric comparison itself orders by physical amount (follows from R3 plus C01's strictly increasing conversions)",
@@ -311,3 +312,62 @@ def r5_type_error(rep, ctx):
                   "%s.__lt__: %s" % (cname, "; ".join(w for w, c in (("the differing-types branch does not always raise", not must), ("it does not raise TypeError", not raises_type_error),
                                                                        ("a comparison is reachable without passing the guard", not dominated)) if c)), node=cfg.ast[nid], fn=fn)
     rep.floor("C08.R5", "__lt__ methods", n, 1)
+
+
+# ------------------------------------------------------------------------------------------------
+EQ_CLASSES = ("Quantity", "Scalar", "Array", "FixedArray", "FractionScalar", "FractionValue", "Fraction", "Curve", "UnitSystem")
+
+
+def r8_symmetric_shape(rep, ctx):
+    """a == b and b == a give the same answer when every comparison inside __eq__ has the form
+    f(self) == f(other) for one projection f (a field, a getter, tuple(...) of one).  A comparison that reads
+    different things from the two sides (one operand's entries looked up in the other) is a one-directional test."""
+    m = ctx.model
+    SELF, OTHER = ("SELF",), ("OTHER",)
+    n = 0
+    for cname in EQ_CLASSES:
+        fn = m.lookup(cname, "__eq__")
+        if fn is None or len(fn.params) < 2:
+            continue
+        res = Resolver(m, fn)
+        other = fn.params[1]
+
+        def gen(t):
+            if not isinstance(t, tuple) or not t:
+                return t
+            if t == ("self",):
+                return SELF
+            if t[0] == "param" and t[2] == other:
+                return OTHER
+            if t[0] == "field":
+                return ("attr", SELF, t[1].lstrip("_"))
+            if t[0] == "attr" and isinstance(t[2], str):
+                return ("attr", gen(t[1]), t[2].lstrip("_"))
+            return tuple(gen(x) if isinstance(x, tuple) else x for x in t)
+
+        def swap(t):
+            if not isinstance(t, tuple) or not t:
+                return t
+            if t == SELF:
+                return OTHER
+            if t == OTHER:
+                return SELF
+            return tuple(swap(x) if isinstance(x, tuple) else x for x in t)
+
+        def mentions(t, what):
+            return any(x == what for x in walk(t))
+
+        for r in own_nodes(fn.node):
+            if not (isinstance(r, ast.Return) and r.value is not None):
+                continue
+            t = gen(res.term(r.value))
+            for x in walk(t):
+                if x[0] == "op" and x[1] in ("cmp:Eq", "cmp:NotEq") and len(x[2]) == 2:
+                    L, R = x[2]
+                    if not ((mentions(L, SELF) or mentions(L, OTHER)) and (mentions(R, SELF) or mentions(R, OTHER))):
+                        continue  # a comparison with a constant (the sign of a shared compare helper, ...)
+                    n += 1
+                    sym = swap(L) == R
+                    rep.check(sym, "C08.R8", "%s.__eq__:%s" % (cname, norm(show(L, 50))), "compares the same projection of self and other",
+                              "%s.__eq__ compares `%s` with `%s`: not the same projection of the two operands, so a == b and b == a can differ" % (cname, show(L, 70), show(R, 70)), node=r, fn=fn)
+    rep.floor("C08.R8", "comparisons inside __eq__ methods", n, 8)
